@@ -39,8 +39,8 @@ type Layout struct {
 	// ones (ext:InResponseTo) on the message root, before (1) or after (2)
 	// the real attributes; not schema-valid, but nothing in the library objects to it. Never drawn by DrawLayout.
 	ShadowRoot int
-	Extras    bool // optional schema-valid content a conforming IdP may add (Extensions, Advice, NameID / SubjectConfirmationData attributes, AuthenticatingAuthority, foreign attributes)
-	Seed      uint64
+	Extras     bool // optional schema-valid content a conforming IdP may add (Extensions, Advice, NameID / SubjectConfirmationData attributes, AuthenticatingAuthority, foreign attributes)
+	Seed       uint64
 }
 
 func DrawLayout(t *core.Tape) Layout {
